@@ -266,7 +266,7 @@ func (d *dkgAnchors) build(w *World, proto string, t *types.Named) *tsys {
 				}
 				if inVec {
 					for _, e := range o.Effects {
-						if e.Kind == "call" && strings.HasPrefix(e.What, "processor.Disqualify") && e.Fn != "" && strings.HasSuffix(e.Fn, ")."+vecFn) {
+						if e.Kind == "call" && strings.HasPrefix(e.What, "processor.Disqualify") && e.Fn != "" && (strings.HasSuffix(e.Fn, ")."+vecFn) || !vocabHasMethod(e.Fn)) {
 							o.Post["vecRejected"] = 1
 						}
 					}
@@ -941,9 +941,17 @@ func (w *World) ruleDisqualificationRules(rule string, d *dkgAnchors) {
 			if fn.Signature.Recv() == nil || !types.Identical(deref(fn.Signature.Recv().Type()), t) {
 				continue
 			}
-			for _, c := range callsTo(fn, "Disqualify") {
+			if isNewHelper(fn) {
+				continue // visited through its callers, once per call site
+			}
+			// one site per call chain: a helper that reports the disqualification is judged at each of its call sites
+			for _, ds := range w.deepSitesHelpers(fn, func(ins ssa.Instruction) bool {
+				c, ok := ins.(ssa.CallInstruction)
+				return ok && c.Common().IsInvoke() && c.Common().Method.Name() == "Disqualify"
+			}) {
+				c := ds.ins.(ssa.CallInstruction)
 				if c.Common().IsInvoke() {
-					sites = append(sites, site{fn, c.(ssa.Instruction), factStrings(w.factsAt(c.(ssa.Instruction))), render(c.Common().Args[0])})
+					sites = append(sites, site{fn, c.(ssa.Instruction), w.deepFacts(ds), ds.render(c.Common().Args[0])})
 				}
 			}
 		}
@@ -1012,7 +1020,7 @@ func (w *World) ruleDisqualificationRules(rule string, d *dkgAnchors) {
 		}
 		blk := s.ins.Block()
 		okk := false
-		for _, fnb := range s.fn.Blocks {
+		for _, fnb := range s.ins.Parent().Blocks { // (the function holding the call: an extracted helper is judged on its own path)
 			for _, ins := range fnb.Instrs {
 				st, ok := ins.(*ssa.Store)
 				if !ok {
@@ -1201,10 +1209,19 @@ func ruleC07(w *World) {
 				continue
 			}
 			c := calls[0].(ssa.Instruction)
-			fs := factStrings(w.factsAt(c))
+			facts := w.factsAt(c)
+			fs := factStrings(facts)
+			replaced := map[string]bool{} // outcome of an extracted helper: judged through what it implies (its expansion is in the list)
+			for _, f := range facts {
+				for _, hc := range f.calls {
+					if helperCallee(hc) != nil && strings.HasPrefix(f.Expr, render(hc)) {
+						replaced[f.Expr] = true
+					}
+				}
+			}
 			var extra, missing []string
 			for _, f := range fs {
-				okk := false
+				okk := replaced[f]
 				for _, a := range al {
 					if strings.Contains(f, a) {
 						okk = true
@@ -1246,12 +1263,20 @@ func ruleC07(w *World) {
 		}
 	}
 	// R3 no blind overwrite of complaint records
-	for _, fn := range qualFns {
-		instrs(fn, func(ins ssa.Instruction) {
+	seenMU := map[*ssa.MapUpdate]bool{}
+	var qnames []string
+	for n := range qualFns {
+		qnames = append(qnames, n)
+	}
+	sort.Strings(qnames)
+	for _, qn := range qnames {
+		fn := qualFns[qn]
+		instrsFlat(fn, func(ins ssa.Instruction) {
 			mu, ok := ins.(*ssa.MapUpdate)
-			if !ok {
+			if !ok || seenMU[mu] {
 				return
 			}
+			seenMU[mu] = true
 			if _, fresh := mu.Value.(*ssa.Alloc); !fresh {
 				return
 			}
@@ -1263,7 +1288,12 @@ func ruleC07(w *World) {
 					okk = true
 				}
 			}
-			w.check(okk, "C07.R3", fnKey(fn)+"/fresh-record", mu.Pos(), "a fresh complaint record is installed only after a failed lookup of the same key", "a fresh complaint record overwrites whatever was stored for `"+key+"` (an earlier answer or complaint is lost): honest participants end with different complaint tables", factStrings(fs)...)
+			// the construct is named by what it installs, not by the function that happens to hold it today
+			ckey := fnKey(fn) + "/fresh-record"
+			if strings.HasSuffix(key, "myIndex") {
+				ckey = "qual/own-complaint/fresh-record"
+			}
+			w.check(okk, "C07.R3", ckey, mu.Pos(), "a fresh complaint record is installed only after a failed lookup of the same key", "a fresh complaint record overwrites whatever was stored for `"+key+"` (an earlier answer or complaint is lost): honest participants end with different complaint tables", factStrings(fs)...)
 		})
 	}
 	// R8 the stored answer of a complaint record is written once: only for a fresh record or while the record has no answer yet
